@@ -257,6 +257,14 @@ fn read(rng: &mut Rng, ctx: &mut Ctx) {
                 if hash { if g.hash.as_deref() != Some(xx.as_str()) { c.fail("C11", format!("hash {:?} != {}", g.hash, xx)); } } else if g.hash.is_some() { c.fail("C11", "hash reported though not requested"); }
             } }
         ctx.push(c);
+        // the header understates the raw length by a few bytes (the declared end falls inside the final Game End event): the reader finishes the event it
+        // is in, notes that it consumed more than declared, and goes on — same game, and the hash is still that of all the bytes read
+        if k % 12 == 7 && r.end.is_some() && !r.double_end { let elen = r.end.as_ref().unwrap().len(); let d = 1 + (k / 12) % elen.max(1); let mut b2 = b.clone();
+            let raw = u32::from_be_bytes([b2[11], b2[12], b2[13], b2[14]]); b2[11..15].copy_from_slice(&(raw - d as u32).to_be_bytes());
+            let (l2, g2) = read_line(&b2, false, true);
+            let mut c = Case::new(read_cmd(false, true, &b2), l2.clone()); c.tags = vec![format!("rawlen-understated:{}", d)];
+            if let Some(g2) = &g2 { let xx2 = format!("xxh3:{:016x}", xxhash_rust::xxh3::xxh3_64(&b2)); if g2.hash.as_deref() != Some(xx2.as_str()) { c.fail("C11", format!("hash {:?} of a replay whose header understates the raw length by {} is not XXH3-64 of the file {}", g2.hash, d, xx2)); } }
+            ctx.push(c); }
         // write back
         let (line2, or) = match &g { None => (line.clone(), None), Some(g) => match write_slp(g) { Ok(o) => (format!("ok {}", hex(&o)), (o != b).then(|| format!("write(read(x)) differs from x at byte {}", o.iter().zip(&b).position(|(a, b)| a != b).unwrap_or(o.len().min(b.len()))))), Err(e) => (e.clone(), Some(format!("write(read(x)) failed: {}", e))) } };
         let mut c = Case::new(format!("rt {}", hex(&b)), line2); c.tags = vec!["rt".into()];
@@ -288,7 +296,7 @@ fn read(rng: &mut Rng, ctx: &mut Ctx) {
             let mut c = Case::new(read_cmd(true, hash, &b), sl.clone()); c.tags = tags.clone(); c.tags.push("skip1".into());
             match (&gs, &g) { (Some(gs), Some(g)) => {
                 if start_json(&gs.start) != start_json(&g.start) || gs.start.bytes != g.start.bytes { c.fail("C10", "skip-frames: Game Start differs from full parse"); }
-                if end_json(&gs.end) != end_json(&g.end) || gs.end.as_ref().map(|e| &e.bytes) != g.end.as_ref().map(|e| &e.bytes) { c.fail("C10", "skip-frames: Game End differs from full parse"); }
+                if end_json(&gs.end) != end_json(&g.end) || gs.end.as_ref().map(|e| &e.bytes) != g.end.as_ref().map(|e| &e.bytes) { c.fail("C10", "skip-frames: Game End differs from full parse"); c.fail("C05", format!("Game End of a skip-frames read is not the replay's Game End block ({} bytes): {} vs {}", r.end.as_ref().map_or(0, |e| e.len()), end_json(&gs.end), end_json(&g.end))); }
                 if gs.metadata != g.metadata { c.fail("C10", "skip-frames: metadata differs from full parse"); }
                 if gs.frames.id.len() != 0 { c.fail("C10", format!("skip-frames: {} frames", gs.frames.id.len())); }
                 { let lay = |f: &im::Frame| -> Vec<(u8, bool)> { f.ports.iter().map(|p| (p.port as u8, p.follower.is_some())).collect() };
@@ -298,7 +306,7 @@ fn read(rng: &mut Rng, ctx: &mut Ctx) {
                 match write_slp(gs) { Err(e) => c.fail("C10", format!("skip-frames result cannot be written: {}", e)), Ok(y) => { let (l, g2) = read_line(&y, false, false); match g2 { None => c.fail("C10", format!("skip-frames result cannot be re-read: {}", l)),
                     Some(g2) => if start_json(&g2.start) != start_json(&g.start) || end_json(&g2.end) != end_json(&g.end) || g2.metadata != g.metadata { c.fail("C10", "re-read of the written skip-frames game differs in start/end/metadata") } } } }
               }
-              (None, Some(_)) => c.fail("C10", format!("skip-frames read of a finished replay failed: {}", sl)), _ => {} }
+              (None, Some(_)) => { c.fail("C10", format!("skip-frames read of a finished replay failed: {}", sl)); c.fail("C05", format!("the skip-frames read does not find the Game End block ({} bytes) where it is: {}", r.end.as_ref().map_or(0, |e| e.len()), &sl[..sl.len().min(80)])); } _ => {} }
             ctx.push(c);
         }
         // two replays back to back on one reader (a container, a stream of games): each read consumes exactly its own replay — the reader stands
@@ -981,7 +989,14 @@ fn peppi_suite(rng: &mut Rng, ctx: &mut Ctx) {
             // skip-frames option of the .slpp reader
             match peppi::io::peppi::read(Cursor::new(&buf), Some(&peppi::io::peppi::de::Opts { skip_frames: true })) {
                 Ok(g3) => { if start_json(&g3.start) != start_json(&start) || end_json(&g3.end) != end_json(&endc) || g3.metadata != md0 { fails.push(("C10".into(), ".slpp skip-frames: start/end/metadata differ".into())); } if g3.frames.id.len() != 0 { fails.push(("C10".into(), ".slpp skip-frames returned frames".into())); }
-                    match write_slp(&g3) { Ok(y) => if read_line(&y, false, false).1.is_none() { fails.push(("C10".into(), ".slpp skip-frames result cannot be re-read after writing".into())); }, Err(e) => fails.push(("C10".into(), format!(".slpp skip-frames result cannot be written: {}", e))) } }
+                    match write_slp(&g3) { Ok(y) => if read_line(&y, false, false).1.is_none() { fails.push(("C10".into(), ".slpp skip-frames result cannot be re-read after writing".into())); }, Err(e) => fails.push(("C10".into(), format!(".slpp skip-frames result cannot be written: {}", e))) }
+                    // the empty frame set is laid out like the game's (one column set per occupied port, followers included) and exports with the game's port occupancy
+                    if !zero_ports { let occ = peppi::game::port_occupancy(&g3.start); let lay: Vec<(u8, bool)> = g3.frames.ports.iter().map(|p| (p.port as u8, p.follower.is_some())).collect(); let want: Vec<(u8, bool)> = occ.iter().map(|o| (o.port as u8, o.follower)).collect();
+                        if lay != want { let m = format!(".slpp skip-frames: the empty frame set has ports {:?}, the game's occupancy is {:?}", lay, want); fails.push(("C10".into(), m.clone())); fails.push(("C14".into(), m)); }
+                        let ver = g3.start.slippi.version; let fr = g3.frames;
+                        match std::panic::catch_unwind(std::panic::AssertUnwindSafe(|| { let sa = fr.into_struct_array(ver, &occ); let mut lv = vec![]; crate::arrowdump::leaves("", arrow2::array::Array::data_type(&sa), &mut lv); (arrow2::array::Array::len(&sa), lv) })) {
+                            Err(_) => { fails.push(("C14".into(), "the frames of a .slpp skip-frames read cannot be exported with the game's port occupancy (panic)".into())); fails.push(("C10".into(), "the empty frame set of a .slpp skip-frames read cannot be exported".into())); }
+                            Ok((rows, lv)) => { if rows != 0 || lv != spec::arrow_leaves(r.v, &slots_of(&r.start_block)) { fails.push(("C14".into(), format!("the frames of a .slpp skip-frames read export to {} rows / another schema than the version's field table", rows))); } } } } }
                 Err(e) => fails.push(("C10".into(), format!(".slpp skip-frames read failed: {}", e))) }
             let mut parts = vec![]; let mut names = vec![]; let mut ipc_dump: Option<String> = None;
             for e in tar::Archive::new(Cursor::new(&buf)).entries().unwrap() {
